@@ -77,7 +77,7 @@ def shards(tier, seed):
                                     ("lpsd", "numpy", "cross", "hann"), ("new_ltf", "numba", "cross", "hann")):
         out.append({"N": 140000, "sched": sch, "win": win, "backend": backend, "seed": seed, "tier": tier,
                     "case": {"N": 140000, "sched": sch, "win": win, "backend": backend, "order": 0, "olap": 0.5, "Jdes": 8,
-                             "Kdes": 2, "bmin": 1.0, "Lmin": 1, "mode": mode, "rx": "id1", "ry": "id3", "seed": seed, "light": True}})
+                             "Kdes": 2, "bmin": 1.0, "Lmin": 1, "mode": mode, "rx": "low1", "ry": "low2", "seed": seed, "light": True}})
     out.sort(key=lambda s: -s["N"] * (30 if s["backend"] == "cuda" else 1))
     return pairhist.shards_for(PROPERTY) + out
 
